@@ -22,9 +22,7 @@ deriving Repr, DecidableEq
 
 /-- `std::find(buffer_.begin(), buffer_.end(), prg)`; appended when absent; the index -/
 def bufferIndex {α} [DecidableEq α] (buf : List α) (x : α) : Nat × List α :=
-  match buf.idxOf? x with
-  | some i => (i, buf)
-  | none => (buf.length, buf ++ [x])
+  if x ∈ buf then (buf.idxOf x, buf) else (buf.length, buf ++ [x])
 
 /-- `test_evaluator::operator()` ; `rnd dist` = `e.seed(dist); e()` converted to `double` -/
 def testEval {α F} [DecidableEq α] [NumC F] (rnd : Nat → F) (k : TestKind) (buf : List α) (x : α) :
